@@ -157,7 +157,13 @@ def execute(sc, ctx):
     nested = len(observe.find_histories(wa.root)) - 1
     ctx.state(mclass, sc["twin"]["root_spelling"], sc["twin"]["enum_profile"], min(nested, 3), bool(pats), used_sf)
     ctx.probe("mount_" + mclass)
-    # relocated copy verifies
+    # relocated copy verifies (only demanded when the tree verifies in place, i.e. the op list sealed all of it)
+    in_place = wa.run_cmd(["verify", wa.root])
+    if in_place.outcome != ("exit", 0):
+        ctx.probe("tree_not_fully_sealed_relocation_na")
+        ctx.absorb_world(wa)
+        ctx.absorb_world(wb)
+        return
     for src in (wa, wb):
         dst_parent = ctx.subdir()
         dst = os.path.join(dst_parent, "w", "relocated [copy] here" if src is wb else "relocated here", src.spec["rootname"])
